@@ -41,36 +41,37 @@ def fields_of(obj) -> list[tuple[str, Any]]:
     return res
 
 
-def _iter_nested(value, path) -> Iterator[tuple[tuple, Any]]:
+def _iter_nested(value, path, into_slices=True) -> Iterator[tuple[tuple, Any]]:
     """graph nodes nested in tuples / mappings / NormalizedSlice."""
     from pytato.array import NormalizedSlice
     if is_node(value):
         yield path, value
     elif isinstance(value, (tuple, list)):
         for i, v in enumerate(value):
-            yield from _iter_nested(v, (*path, i))
+            yield from _iter_nested(v, (*path, i), into_slices)
     elif isinstance(value, Mapping):
         for k in value:
-            yield from _iter_nested(value[k], (*path, k))
-    elif isinstance(value, NormalizedSlice):
+            yield from _iter_nested(value[k], (*path, k), into_slices)
+    elif isinstance(value, NormalizedSlice) and into_slices:
         for nm in ("start", "stop", "step"):
             yield from _iter_nested(getattr(value, nm), (*path, nm))
 
 
-def children(obj, *, into_functions: bool = True) -> list[tuple[tuple, Any]]:
+def children(obj, *, into_functions: bool = True,
+             into_slices: bool = True) -> list[tuple[tuple, Any]]:
     """[(label, child)] - every graph node directly referenced by a field of
     *obj*; label = (field, position...)."""
     from pytato.function import FunctionDefinition
     out = []
     for name, value in fields_of(obj):
-        for path, ch in _iter_nested(value, (name,)):
+        for path, ch in _iter_nested(value, (name,), into_slices):
             if not into_functions and isinstance(ch, FunctionDefinition):
                 continue
             out.append((path, ch))
     return out
 
 
-def walk(root, *, into_functions: bool = True,
+def walk(root, *, into_functions: bool = True, into_slices: bool = True,
          stop: Callable[[Any], bool] | None = None) -> dict[int, Any]:
     """id -> node for everything reachable from *root* (iterative)."""
     seen: dict[int, Any] = {}
@@ -82,7 +83,8 @@ def walk(root, *, into_functions: bool = True,
         seen[id(n)] = n
         if stop is not None and stop(n):
             continue
-        for _, ch in children(n, into_functions=into_functions):
+        for _, ch in children(n, into_functions=into_functions,
+                              into_slices=into_slices):
             if id(ch) not in seen:
                 stack.append(ch)
     return seen
